@@ -412,7 +412,7 @@ func check(r *fw.R, sz sizeSpec, g1, g2 xf, sh shapeSpec, st styleSpec) {
 	h2 := oracle.HausdorffOneSided(gotPls, expPls, 3, false)
 	r.Max("geometry_hausdorff_mm", math.Max(h1, h2))
 	scaleMM := math.Sqrt(math.Abs(total.det())) * pxmm
-	if math.Max(h1, h2) > 1e-3*math.Max(1, scaleMM*40) {
+	if !(math.Max(h1, h2) <= 1e-3*math.Max(1, scaleMM*40)) {
 		lo, hi, _ := oracle.BBox(gotPls)
 		elo, ehi, _ := oracle.BBox(expPls)
 		r.Violate("geometry", fmt.Sprintf("drawn geometry differs from the specified one by %.4g mm (bbox drawn [%.3f,%.3f]-[%.3f,%.3f], specified [%.3f,%.3f]-[%.3f,%.3f])%s", math.Max(h1, h2), lo.X, lo.Y, hi.X, hi.Y, elo.X, elo.Y, ehi.X, ehi.Y, tag))
@@ -450,7 +450,7 @@ func check(r *fw.R, sz sizeSpec, g1, g2 xf, sh shapeSpec, st styleSpec) {
 		mdet := math.Abs(op.M[0][0]*op.M[1][1] - op.M[0][1]*op.M[1][0])
 		gotW := op.Style.StrokeWidth * math.Sqrt(mdet)
 		wantW := w.sw * scaleMM
-		if math.Abs(gotW-wantW) > 1e-6*math.Max(1, wantW) {
+		if !(math.Abs(gotW-wantW) <= 1e-6*math.Max(1, wantW)) {
 			r.Violate("stroke-width", fmt.Sprintf("effective stroke width %.6g mm, specified %.6g mm%s", gotW, wantW, tag))
 			return
 		}
